@@ -163,8 +163,11 @@ def gen_additivity(rng, tier):
         # K8 on the second treebank: the files are frameless, so file(A+B) = file(A) + file(B)
         # byte for byte; what is produced for the (damaged) sentences of B must be the same
         # alone and after A
-        d["damageB"] = {"how": rng.choice(["drop_word", "truncate", "stray_text", "drop_word"]),
+        d["damageB"] = {"how": rng.choice(["drop_word", "truncate", "stray_text", "drop_word",
+                                           "none", "none"]),
                         "seed": rng.randrange(1 << 30)}
+        if fmt == "export":
+            d["codecs"] = [rng.choice(["export3", "export4"]), rng.choice(["export3", "export4"])]
     return d
 
 
@@ -512,6 +515,8 @@ def damage_bytes(data, dmg, fmt):
     rng = random.Random(dmg["seed"])
     lines = data.split(b"\n")
     how = dmg["how"]
+    if how == "none":
+        return data
     if how == "truncate":
         return data[:rng.randrange(max(1, len(data)))]
     if how == "stray_text":
@@ -618,9 +623,12 @@ def execute_additivity(sc, sim):
                      ("markov" if sc.get("gmode") else "raw"))
     if sc.get("damageB"):
         codec, _ = sl.SRC[sc["fmt"]]
-        ra = cm.render_file({"tb": A, "codec": codec, "layout": sc["layout"], "enc": "utf-8"})
-        rb = damage_bytes(cm.render_file({"tb": B, "codec": codec, "layout": sc["layout"] + 7,
+        ca, cb = sc.get("codecs") or [codec, codec]
+        ra = cm.render_file({"tb": A, "codec": ca, "layout": sc["layout"], "enc": "utf-8"})
+        rb = damage_bytes(cm.render_file({"tb": B, "codec": cb, "layout": sc["layout"] + 7,
                                           "enc": "utf-8"}), sc["damageB"], sc["fmt"])
+        if ca != cb:
+            st.probe("export_v3_and_v4_in_one_file")
         oa, da = run_one(sc, sim, A, "A", st, raw=ra)
         ob, db = run_one(sc, sim, B, "B", st, raw=rb)
         oab, dab = run_one(sc, sim, AB, "AB", st, raw=ra + rb)
